@@ -88,8 +88,10 @@ def judge(args):
     wd = workdir()
     try:
         db = os.path.join(wd, "db")
-        tail = "sleep 300\ndump\n"
-        o, raw, rc = run_fjv(rn["prog"] + tail, dbdir=db, env_extra={"FJV_TIMING": "1"}, timeout=180)
+        # a synchronous no-op on every thread is a barrier (each thread runs its queue in order): the final read is taken
+        # after every asynchronous operation has returned, however slow the machine is
+        tail = "".join("thread w%d has - h0 00\n" % t for t in range(rn["threads"])) + "dump\n"
+        o, raw, rc = run_fjv(rn["prog"] + tail, dbdir=db, env_extra={"FJV_TIMING": "1", "FJV_SYNC_TIMEOUT_MS": "120000"}, timeout=600)
         lines = rn["prog"].splitlines()
         hist = {}
         problems = []
@@ -126,7 +128,9 @@ def judge(args):
                     hist.setdefault((f[0], f[2]), []).append(Op(c, rt, "w", f[3], i))
         if not problems:
             # final content as one more read per key, after everything
-            dump = o.get(len(lines) + 2) or ""
+            dump = o.get(len(lines) + rn["threads"] + 1) or ""
+            if "{" not in dump:
+                problems.append("the final dump did not run (timing): %r" % (dump,))
             content = {}
             for part in dump.split(";"):
                 if "{" in part:
@@ -142,8 +146,17 @@ def judge(args):
                 if len(ops) > 400:
                     continue
                 if not linearizable(ops):
-                    problems.append("history of key %s/%s is not linearizable (%d operations incl. the final read %r)"
-                                    % (key[0], key[1], len(ops), content.get(key)))
+                    # shortest non-linearizable prefix (by call time), shown with call/return times
+                    so = sorted(ops, key=lambda o_: o_.call)
+                    win = so
+                    for n_ in range(1, len(so) + 1):
+                        if not linearizable(so[:n_]):
+                            win = so[max(0, n_ - 10):n_]
+                            break
+                    problems.append("history of key %s/%s is not linearizable (%d operations incl. the final read %r); last operations of the "
+                                    "shortest non-linearizable prefix (call-return kind value line): %s"
+                                    % (key[0], key[1], len(ops), content.get(key),
+                                       "; ".join("%d-%d %s %s L%d" % (o_.call, o_.ret, o_.kind, (o_.val or "None")[:8], o_.line) for o_ in win)))
                     break
             # nothing acknowledged may be lost by a restart
             o2, _, _ = run_fjv("open plain\ndump\n", dbdir=db)
@@ -163,12 +176,17 @@ def held_writer(args):
     w2 = {"put": "put h0 61 bb", "del": "del h0 61", "batch": "batch - h0:p:61:bb h1:p:71:bb"}[w2kind]
     L = ["open plain", "ks h0 alpha", "ks h1 beta", "put h0 61 00", "put h0 62 00",
          "pausepoint %s 1 hold" % site, "thread w1 %s &" % w1, "waitpause %s" % site, "thread w2 %s &" % w2, "sleep 150",
-         "thread r rotate h0 &", "sleep 150", "drain", "release %s" % site, "sleep 300", "drain", "get - h0 61",
-         "get - h0 61", "rotate h0", "drain", "major h0", "get - h0 61", "reopen", "ks h0 alpha", "get - h0 61"]
+         "thread r rotate h0 &", "sleep 150", "drain", "release %s" % site,
+         # barriers: each thread answers a synchronous read only after its asynchronous operation has returned
+         "thread w1 has - h1 00", "thread w2 has - h1 00", "thread r has - h1 00", "drain"]
+    i_r1 = len(L) + 1
+    L += ["get - h0 61", "get - h0 61", "rotate h0", "drain", "major h0"]
+    i_r2 = len(L) + 1
+    L += ["get - h0 61", "reopen", "ks h0 alpha", "get - h0 61"]
     prog = "\n".join(L) + "\n"
-    o, raw, rc = run_fjv(prog, env_extra={"FJV_SYNC_TIMEOUT_MS": "6000"}, timeout=90)
+    o, raw, rc = run_fjv(prog, env_extra={"FJV_SYNC_TIMEOUT_MS": "20000"}, timeout=240)
     n = len(L)
-    r1, r1b, r2, r3 = o.get(17), o.get(18), o.get(22), o.get(n)
+    r1, r1b, r2, r3 = o.get(i_r1), o.get(i_r1 + 1), o.get(i_r2), o.get(n)
     vals = set()
     for k, w in ((w1kind, "aa"), (w2kind, "bb")):
         vals.add("none" if k == "del" else "some " + w)
@@ -214,15 +232,21 @@ HELD = [(s_, a, b) for s_, kinds in (("ks.after_journal", ("put", "del")), ("ks.
 def run(rep, tier, seed, build):
     from common import proof_audit
     obl, dis, pproblems = proof_audit("props/C14.v", THEOREMS, build["coq"])
-    hw = pmap(held_writer, HELD if tier != "quick" else [x for i, x in enumerate(HELD) if (i + seed) % 2 == 0 or x[0] == "ks.after_journal"],
-              workers=6)
+    from common import pmap_confirm
+    hw, unconf = pmap_confirm(held_writer, HELD if tier != "quick" else [x for i, x in enumerate(HELD) if (i + seed) % 2 == 0 or x[0] == "ks.after_journal"],
+                              lambda x: bool(x["problems"]), workers=6)
     for x in [x for x in hw if x["problems"]][:2]:
         rep.violation("# C14: writer held at %s while a second writer, a rotation and a flush run: %s\n%s" % (x["site"], x["problems"][0], x["prog"]))
-    sw = [x for x in pmap(single_worker_liveness, [("plain", 48)] if tier == "quick" else [("plain", 48), ("sw", 60), ("occ", 80)], workers=3) if x]
+    sw, unconf3 = pmap_confirm(single_worker_liveness, [("plain", 48)] if tier == "quick" else [("plain", 48), ("sw", 60), ("occ", 80)],
+                               lambda x: x is not None, workers=3)
+    sw = [x for x in sw if x]
     for msg, prog in sw[:1]:
         rep.violation("# C14: %s\n%s" % (msg, "\n".join(prog.splitlines()[:12]) + "\n... (rounds of 6 asynchronous puts on 3 threads + rotate)\n"))
     n = 24 if tier == "quick" else 300
-    res = pmap(judge, [(seed * 2147483647 + i, tier) for i in range(n)], workers=4)
+    # free-running runs: a stalled operation (time limit) is confirmed by a second, patient run; a non-linearizable history is
+    # evidence by itself, but the confirming run costs nothing when it shows up again
+    res, unconf2 = pmap_confirm(judge, [(seed * 2147483647 + i, tier) for i in range(n)],
+                                lambda x: bool(x["problems"]) and ("never returned" in x["problems"][0] or "timing" in x["problems"][0]), workers=4)
     bad = [x for x in res if x["problems"]]
     for x in bad[:3]:
         rep.violation("# C14: %s\n# run: %d threads x %d ops, %d workers, memtable %d bytes\n%s"
@@ -232,7 +256,7 @@ def run(rep, tier, seed, build):
                              "memtable limit 600-4000 bytes and 1-4 worker threads (continuous rotation/flush/compaction), every operation "
                              "timestamped at call and return; per-key Wing-Gong linearizability search including a final read of the "
                              "content; content after reopen must equal the final content; distinct by (threads, ops, workers, memtable)",
-                        samples=[res[0]["run"]["prog"].splitlines()[:8]], held_writer_schedules=len(hw), runs=n, threads_max=max(x["run"]["threads"] for x in res),
+                        samples=[res[0]["run"]["prog"].splitlines()[:8]], held_writer_schedules=len(hw), unconfirmed_alarms=unconf + unconf2 + unconf3, runs=n, threads_max=max(x["run"]["threads"] for x in res),
                         disagreements_checked=len(bad), partial_theorems=THEOREMS, partial_theorems_discharged=dis,
                         partial_theorem_problems=pproblems)
     if pproblems and not rep.violations:
